@@ -127,8 +127,11 @@ def _tailify(stmts: List[ast.stmt], ret: str) -> List[ast.stmt]:
             # both arms -- `if c: [if d: return a]; X` + REST  ==  if c: [if d: return a]; X; REST  else: REST
             if len(rest) <= 4 and not any(isinstance(n, (ast.For, ast.While, ast.Try, ast.With, ast.FunctionDef, ast.Lambda))
                                           for r_ in rest for n in ast.walk(r_)):
-                new.body = _tailify(list(st.body) + copy.deepcopy(rest), ret)
-                new.orelse = _tailify(list(st.orelse) + rest, ret)
+                try:
+                    new.body = _tailify(list(st.body) + copy.deepcopy(rest), ret)
+                    new.orelse = _tailify(list(st.orelse) + rest, ret)
+                except _CannotInline:
+                    raise _CannotInline("return in a branch that does not always exit")
                 out.append(new)
                 return out
             raise _CannotInline("return in a branch that does not always exit")
